@@ -96,6 +96,8 @@ uint64_t api_granted_last();        // bytes granted by allocator during the las
 // tick budget for every following top-level API call: limit = base + c1 * bytes granted during the call
 void set_call_budget(uint64_t base, uint64_t c1);
 void set_next_preempt_tick(uint64_t t);
+// enumeration drivers announce the fault point they are executing (reported if the process dies there)
+void set_focus(int64_t a, int64_t b);
 
 // CPU cap knob + cold library
 void set_cpu_cap(int level);        // 0..3
@@ -105,6 +107,8 @@ void make_library_cold();
 void cov_attach(uint8_t* shared_map, size_t size);
 size_t cov_count();
 
+// between the fault points of an enumeration: fresh fault plans and counters, same disk and knobs
+void reset_fault_plans();
 // world reset at start of every run
 void world_reset();
 // to be called at the end of a run: verifies no stream/fd/mapping the library opened is still open
